@@ -256,6 +256,154 @@ const EPXYZ: &[&str] = &[
 ];
 const EP2: &[&str] = &["Rotation2::from_angle", "Matrix2::from_angle", "Rotation::rotate_vector for Basis2"];
 
+/// Native f32 / f64 runs of every constructor against Rodrigues' formula
+/// evaluated in f64 from libm's sin/cos of the very angle value the code
+/// receives.  The angle families are the ones the interval engine cannot
+/// separate from their neighbours and random draws never hit: log-uniform tiny
+/// angles (1e-12 .. 3 rad, where cos t rounds to 1 while sin t does not),
+/// angles 10^-k away from a half turn, and angles of many turns; axes are random
+/// unit vectors (normalised in the type under test), axes hugging a coordinate
+/// axis, and the six signed coordinate axes themselves.
+/// Allowance 512 eps |v| (f32) / 4096 eps |v| (f64, where the f64 model itself
+/// carries a few eps); the unchanged code stays below 8 eps.
+pub fn native_rodrigues(cfg: &cgv_core::fw::RunCfg, extra: &mut cgv_core::fw::Extra) {
+    use cgmath::{BaseFloat, Vector2, Vector3};
+    use cgv_core::acc::Acc;
+    use serde_json::json;
+    fn run<T: BaseFloat>(tag: &str, axis0: [f64; 3], angle0: f64, deg: bool, v0: [f64; 3], k: f64, acc: &mut Acc, inputs: &dyn Fn() -> serde_json::Value) {
+        let f = |x: f64| T::from(x).unwrap();
+        let g = |x: T| x.to_f64().unwrap();
+        let axis = Vector3::new(f(axis0[0]), f(axis0[1]), f(axis0[2])).normalize();
+        let v = Vector3::new(f(v0[0]), f(v0[1]), f(v0[2]));
+        let ang_t = f(angle0);
+        // the model sees exactly the values the code sees
+        let a = [g(axis.x), g(axis.y), g(axis.z)];
+        let x = [g(v.x), g(v.y), g(v.z)];
+        let t = if deg { g(ang_t).to_radians() } else { g(ang_t) };
+        let (s, c) = t.sin_cos();
+        let rod = |a: [f64; 3]| {
+            let cr = [a[1] * x[2] - a[2] * x[1], a[2] * x[0] - a[0] * x[2], a[0] * x[1] - a[1] * x[0]];
+            let d = a[0] * x[0] + a[1] * x[1] + a[2] * x[2];
+            // 1 - cos t without cancellation: 2 sin^2(t/2)
+            let h = (t * 0.5).sin();
+            let omc = 2.0 * h * h;
+            [x[0] * c + cr[0] * s + a[0] * d * omc, x[1] * c + cr[1] * s + a[1] * d * omc, x[2] * c + cr[2] * s + a[2] * d * omc]
+        };
+        let want = rod(a);
+        let vn = x[0].abs() + x[1].abs() + x[2].abs();
+        // degrees: the conversion to radians inside the code costs another rounding of the angle
+        let tol = k * T::epsilon().to_f64().unwrap() * vn * (1.0 + if deg { t.abs() } else { 0.0 });
+        let mut cmp = |name: &str, got: Vector3<T>, want: [f64; 3]| {
+            for i in 0..3 {
+                acc.check(&format!("{tag} {name} [{i}]"), g(got[i]), want[i], tol, inputs);
+            }
+        };
+        macro_rules! all {
+            ($ang:expr) => {{
+                cmp("Matrix3::from_axis_angle * v", Matrix3::from_axis_angle(axis, $ang) * v, want);
+                cmp("Matrix4::from_axis_angle * v", (Matrix4::from_axis_angle(axis, $ang) * v.extend(T::zero())).truncate(), want);
+                cmp("Basis3::from_axis_angle", Basis3::from_axis_angle(axis, $ang).rotate_vector(v), want);
+                cmp("Quaternion::from_axis_angle * v", Quaternion::from_axis_angle(axis, $ang) * v, want);
+                cmp("Matrix3::from_angle_x * v", Matrix3::from_angle_x($ang) * v, rod([1.0, 0.0, 0.0]));
+                cmp("Matrix3::from_angle_y * v", Matrix3::from_angle_y($ang) * v, rod([0.0, 1.0, 0.0]));
+                cmp("Matrix3::from_angle_z * v", Matrix3::from_angle_z($ang) * v, rod([0.0, 0.0, 1.0]));
+                cmp("Matrix4::from_angle_x * v", (Matrix4::from_angle_x($ang) * v.extend(T::zero())).truncate(), rod([1.0, 0.0, 0.0]));
+                cmp("Matrix4::from_angle_y * v", (Matrix4::from_angle_y($ang) * v.extend(T::zero())).truncate(), rod([0.0, 1.0, 0.0]));
+                cmp("Matrix4::from_angle_z * v", (Matrix4::from_angle_z($ang) * v.extend(T::zero())).truncate(), rod([0.0, 0.0, 1.0]));
+                cmp("Quaternion::from_angle_x * v", Quaternion::from_angle_x($ang) * v, rod([1.0, 0.0, 0.0]));
+                cmp("Quaternion::from_angle_y * v", Quaternion::from_angle_y($ang) * v, rod([0.0, 1.0, 0.0]));
+                cmp("Quaternion::from_angle_z * v", Quaternion::from_angle_z($ang) * v, rod([0.0, 0.0, 1.0]));
+                cmp("Basis3::from_angle_z", Basis3::from_angle_z($ang).rotate_vector(v), rod([0.0, 0.0, 1.0]));
+                let w2 = [x[0] * c - x[1] * s, x[0] * s + x[1] * c, 0.0];
+                let m2 = Matrix2::from_angle($ang) * Vector2::new(v.x, v.y);
+                cmp("Matrix2::from_angle * v", Vector3::new(m2.x, m2.y, T::zero()), w2);
+                let b2: Basis2<T> = Rotation2::from_angle($ang);
+                let r2 = b2.rotate_vector(Vector2::new(v.x, v.y));
+                cmp("Basis2::from_angle", Vector3::new(r2.x, r2.y, T::zero()), w2);
+            }};
+        }
+        if deg {
+            all!(Deg(ang_t));
+        } else {
+            all!(Rad(ang_t));
+        }
+    }
+    let n = if cfg.tier == Tier::Quick { 3000 } else { 200_000 };
+    let mut acc = Acc::new("c06_constructors_vs_rodrigues");
+    for i in 0..n {
+        let mut rng = Rng::for_case(cfg.seed, "native_rodrigues", i);
+        let snap = |x: f64| (x as f32) as f64;
+        let deg = rng.chance(1, 4);
+        let unit = if deg { 180.0 / std::f64::consts::PI } else { 1.0 };
+        let axis = match rng.below(4) {
+            0 => {
+                let mut a = [0.0; 3];
+                a[rng.below(3) as usize] = if rng.bool() { 1.0 } else { -1.0 };
+                a
+            }
+            1 => {
+                let mut comp = |rng: &mut Rng| snap(10f64.powf(rng.uniform(-4.0, 0.0)) * if rng.bool() { 1.0 } else { -1.0 });
+                [comp(&mut rng), comp(&mut rng), comp(&mut rng)]
+            }
+            _ => [snap(rng.uniform(-1.0, 1.0)), snap(rng.uniform(-1.0, 1.0)), snap(rng.uniform(-1.0, 1.0))],
+        };
+        if axis.iter().map(|x| x * x).sum::<f64>() < 0.01 {
+            continue;
+        }
+        let sign = if rng.bool() { 1.0 } else { -1.0 };
+        let (angle64, angle32, class) = match rng.below(4) {
+            0 => {
+                let a = sign * 10f64.powf(rng.uniform(-12.0, 0.5)) * unit;
+                let b = sign * 10f64.powf(rng.uniform(-6.0, 0.5)) * unit;
+                (a, snap(b), "log-uniform small angles")
+            }
+            1 => {
+                let k = rng.range(1, 12) as i32;
+                let side = if rng.bool() { 1.0 } else { -1.0 };
+                let half = std::f64::consts::PI * unit;
+                let a = sign * (half + side * half * 10f64.powi(-k));
+                (a, snap(a), "10^-k from a half turn")
+            }
+            2 => {
+                let a = snap(rng.uniform(-8192.0, 8192.0) * unit);
+                (a, a, "many turns")
+            }
+            _ => {
+                let a = snap(rng.uniform(-7.0, 7.0) * unit);
+                (a, a, "ordinary")
+            }
+        };
+        let v = [snap(rng.uniform(-4.0, 4.0)), snap(rng.uniform(-4.0, 4.0)), snap(rng.uniform(-4.0, 4.0))];
+        acc.case(class);
+        let in64 = || json!({"axis": axis, "angle": angle64, "degrees": deg, "v": v, "type": "f64", "index": i});
+        let in32 = || json!({"axis": axis, "angle": angle32, "degrees": deg, "v": v, "type": "f32", "index": i});
+        match cgv_core::fw::catch(|| {
+            let mut local = Acc::new("c06_constructors_vs_rodrigues");
+            run::<f64>("f64", axis, angle64, deg, v, 4096.0, &mut local, &in64);
+            run::<f32>("f32", axis, angle32, deg, v, 512.0, &mut local, &in32);
+            local
+        }) {
+            Ok(l) => {
+                acc.checks += l.checks;
+                acc.worst = acc.worst.max(l.worst);
+                if acc.fail.is_none() {
+                    acc.fail = l.fail;
+                }
+            }
+            Err(p) => acc.truth(&format!("unexpected panic: {p}"), false, &in64),
+        }
+        if acc.failed() {
+            break;
+        }
+    }
+    acc.finish(extra, "Rodrigues' formula in f64 from libm sin/cos of the angle value the code receives; allowance 512 eps|v| (f32), 4096 eps|v| (f64), times (1+|t|) for degrees");
+}
+
+pub fn native(cfg: &cgv_core::fw::RunCfg, extra: &mut cgv_core::fw::Extra) {
+    cgv_core::twins::c06(cfg, extra);
+    native_rodrigues(cfg, extra);
+}
+
 pub fn clauses() -> Vec<Clause> {
     let _ = Rat::int(0);
     vec![
